@@ -65,6 +65,21 @@ func c11Inits() []c11Init {
 		{"base64url-alphabet", "unusable", file(strings.Repeat("-_", 44), 0o600)},
 		{"raw-64-bytes", "unusable", file(string(bytes.Repeat([]byte{0xfe, 0x01}, 32)), 0o600)},
 		{"directory", "unusable", func(dir string) string { p := filepath.Join(dir, "the.key"); os.Mkdir(p, 0o755); return p }},
+		// the key path exists but is not a regular file of the sandbox: a symbolic link to a valid key file, the
+		// null device (reads as an empty file), a symbolic link to it
+		{"symlink-to-valid", "valid", func(dir string) string {
+			t := filepath.Join(dir, "target.key")
+			os.WriteFile(t, []byte(valid), 0o600)
+			p := filepath.Join(dir, "the.key")
+			os.Symlink(t, p)
+			return p
+		}},
+		{"null-device", "unusable", func(dir string) string { return "/dev/null" }},
+		{"symlink-to-null-device", "unusable", func(dir string) string {
+			p := filepath.Join(dir, "the.key")
+			os.Symlink("/dev/null", p)
+			return p
+		}},
 		{"parent-missing", "parent-missing", func(dir string) string { return filepath.Join(dir, "no", "such", "dir", "the.key") }},
 		{"below-a-regular-file", "parent-missing", func(dir string) string {
 			os.WriteFile(filepath.Join(dir, "plainfile"), []byte("x"), 0o644)
@@ -89,6 +104,25 @@ func c11Inputs(dir string) (string, string) {
 	return mk("in1.log", c11Secret1, 3), mk("in2.log", c11Secret2, 2)
 }
 
+// c11BadInputs: inputs on which a run must fail — after good lines have been processed (a line longer than the
+// reader's limit in second position; a gzip stream cut in its last third) or before anything is read (no such file).
+func c11BadInputs(dir string) (longLine, cutGz, missing string) {
+	line := func(v string, i int) string {
+		return LO("t", LO("$date", LS("2024-05-01T10:00:00.123+00:00")), "s", LS("I"), "c", LS("COMMAND"), "id", LN("51803"), "ctx", LS("conn1"), "msg", LS("Slow query"),
+			"attr", LO("ns", LS("d.c"), "command", LO("find", LS("c"), "filter", LO("who", LS(v), "n", LN(fmt.Sprint(i))), "$db", LS("d")))).JSON()
+	}
+	longLine = filepath.Join(dir, "bad-long.log")
+	os.WriteFile(longLine, []byte(line(c11Secret1, 0)+"\n"+line(c11Secret1+strings.Repeat(" pad", 30000), 1)+"\n"+line(c11Secret1, 2)+"\n"), 0o644)
+	var many []string
+	for i := 0; i < 400; i++ {
+		many = append(many, line(c11Secret1, i))
+	}
+	z := gz([]byte(strings.Join(many, "\n") + "\n"))
+	cutGz = filepath.Join(dir, "bad-cut.log.gz")
+	os.WriteFile(cutGz, z[:len(z)*2/3], 0o644)
+	return longLine, cutGz, filepath.Join(dir, "no-such-input.log")
+}
+
 type c11Obs struct {
 	keyType string // absent | file | dir | other
 	keyData []byte
@@ -104,6 +138,11 @@ func c11Observe(p string) c11Obs {
 		return c11Obs{keyType: "dir", keyMode: st.Mode().Perm()}
 	}
 	b, _ := os.ReadFile(p)
+	if st.Mode()&os.ModeSymlink != 0 {
+		if t, err := os.Stat(p); err == nil {
+			return c11Obs{"file", b, t.Mode().Perm()}
+		}
+	}
 	return c11Obs{"file", b, st.Mode().Perm()}
 }
 
@@ -126,11 +165,15 @@ func c11Canon(s c11State, generated bool) string {
 
 var c11B64Re = regexp.MustCompile(`^[A-Za-z0-9+/]{86}==$`)
 
+var c11OpNames = []string{"redact in1 --encrypt", "redact in2 --encrypt", "redact in1 (no --encrypt)", "decrypt",
+	"redact --encrypt an input with an over-long second line", "redact --encrypt a cut gzip input", "redact --encrypt a missing input"}
+
 // c11Trace executes one sequence of operations from an initial state and checks every transition.
 func c11Trace(c *Ctx, init c11Init, ops []int, sandbox string) (states []string) {
 	dir := freshDir(sandbox, "t")
 	kp := init.setup(dir)
 	in1, in2 := c11Inputs(dir)
+	badLong, badGz, badMissing := c11BadInputs(dir)
 	outPath := filepath.Join(dir, "out.log")
 	st := c11State{class: init.class}
 	if init.class == "valid" || init.class == "valid-ws" {
@@ -138,7 +181,7 @@ func c11Trace(c *Ctx, init c11Init, ops []int, sandbox string) (states []string)
 	}
 	generated := false
 	var lastCT, lastPT string // a ciphertext produced under the current key, for decrypt
-	opName := []string{"redact in1 --encrypt", "redact in2 --encrypt", "redact in1 (no --encrypt)", "decrypt"}
+	opName := c11OpNames
 	hist := init.name
 	states = append(states, c11Canon(st, generated))
 	for _, op := range ops {
@@ -156,6 +199,9 @@ func c11Trace(c *Ctx, init c11Init, ops []int, sandbox string) (states []string)
 			r, err = runCLI(CLIRun{Bin: c.CLI, Args: []string{"redact", in, "-o", outPath, "--encrypt", "-q", kp}, Dir: dir})
 		case 2:
 			r, err = runCLI(CLIRun{Bin: c.CLI, Args: []string{"redact", in1, "-o", outPath}, Dir: dir})
+		case 4, 5, 6:
+			in := []string{badLong, badGz, badMissing}[op-4]
+			r, err = runCLI(CLIRun{Bin: c.CLI, Args: []string{"redact", in, "-o", outPath, "--encrypt", "-q", kp}, Dir: dir})
 		default:
 			ct := lastCT
 			if ct == "" {
@@ -209,7 +255,72 @@ func c11Trace(c *Ctx, init c11Init, ops []int, sandbox string) (states []string)
 			}
 			return n > 0
 		}
+		// the lines a failing run did write: every one must be a ciphertext line under `key`
+		checkPartial := func(key []byte) (ok bool, n int) {
+			for _, l := range strings.Split(strings.TrimSuffix(string(outB), "\n"), "\n") {
+				if strings.TrimSpace(l) == "" {
+					continue
+				}
+				j, e := ParseJSON([]byte(l))
+				if e != nil {
+					return false, n
+				}
+				v := follow(j, []int{6, 1, 1, 0})
+				if v == nil || v.Kind != JStr {
+					return false, n
+				}
+				raw, e := base64.StdEncoding.DecodeString(v.Str)
+				if e != nil || key == nil {
+					return false, n + 1
+				}
+				if pt, e := Decrypt(raw, key); e != nil || !strings.HasPrefix(string(pt), c11Secret1) {
+					return false, n + 1
+				}
+				n++
+			}
+			return true, n
+		}
 		switch {
+		case op >= 4: // a run that must fail: bad input (after some good lines, or before anything is read)
+			if r.Exit == 0 {
+				viol("bad-input:run-succeeds", "the input cannot be processed completely but the run exits 0")
+			}
+			switch st.class {
+			case "absent":
+				if after.keyType == "absent" {
+					if _, n := checkPartial(nil); n > 0 {
+						viol("absent:ciphertext-without-stored-key", fmt.Sprintf("the failed run wrote %d ciphertext line(s) but the key it generated is not in the key file: nobody can decrypt them, and the next run will use another key", n))
+					}
+					break
+				}
+				raw, e := base64.StdEncoding.DecodeString(string(after.keyData))
+				if after.keyType != "file" || e != nil || len(raw) != 64 || !c11B64Re.Match(after.keyData) {
+					viol("absent:stored-key-malformed", fmt.Sprintf("the key file stored by a failing run is not the base64 text of a 64-byte key (%d bytes of text)", len(after.keyData)))
+					break
+				}
+				if after.keyMode != 0o600 {
+					viol("absent:key-file-mode", fmt.Sprintf("the key file is created with mode %o, not owner-only", after.keyMode))
+				}
+				if ok, _ := checkPartial(raw); !ok {
+					viol("absent:ciphertexts-not-under-stored-key", "the lines written by the failing run do not decrypt under the stored key")
+				}
+				st = c11State{class: "valid", key: raw}
+				generated = true
+			case "valid", "valid-ws":
+				if !after.same(before) {
+					viol("valid:key-file-changed", "an existing valid key file was modified by a failing run")
+				}
+				if ok, _ := checkPartial(st.key); !ok {
+					viol("valid:ciphertexts-not-under-key", "the lines written by the failing run do not decrypt under the key in the file")
+				}
+			default:
+				if !after.same(before) {
+					viol(st.class+":key-path-changed", fmt.Sprintf("the unusable key path was changed (%s → %s, %d → %d bytes)", before.keyType, after.keyType, len(before.keyData), len(after.keyData)))
+				}
+				if len(bytes.TrimSpace(outB)) != 0 {
+					viol(st.class+":output-written", fmt.Sprintf("redacted output was written although the key is unusable: %s", trunc(string(outB), 200)))
+				}
+			}
 		case op == 2: // no --encrypt: the key path is none of this run's business
 			if !after.same(before) {
 				viol("touched-without-encrypt", "a run without --encrypt changed the key path")
@@ -304,6 +415,9 @@ func c11Trace(c *Ctx, init c11Init, ops []int, sandbox string) (states []string)
 func c11Run(c *Ctx) {
 	inits := c11Inits()
 	depth := 3
+	if c.Thorough() {
+		depth = 4
+	}
 	var no int64
 	seenStates := map[string]bool{}
 	var ops []int
@@ -324,7 +438,7 @@ func c11Run(c *Ctx) {
 		if d == depth {
 			return
 		}
-		for op := 0; op < 4; op++ {
+		for op := 0; op < len(c11OpNames); op++ {
 			ops = append(ops, op)
 			rec(ii, d+1)
 			ops = ops[:len(ops)-1]
@@ -424,7 +538,7 @@ func c11Post(c *Ctx, m *Part) {
 func init() {
 	register(&PropDef{
 		ID: "C11", Level: "model_checking",
-		Rule:        "explicit-state search with the real CLI: 18 initial states of the key path (absent; valid with mode 0600 / 0644; valid + LF / CRLF; empty; 32-, 63-, 65-, 66-, 96-, 128-byte keys; not base64; base64url alphabet; 64 raw bytes; directory; parent missing; below a regular file) x EVERY sequence of 1..3 operations over {redact in1 --encrypt, redact in2 --encrypt, redact without --encrypt, decrypt} = 18 x 84 traces, each replayed from a fresh sandbox; after every transition the observed key path (type, bytes, mode), exit status and output file are compared with the reference model (absent -> valid(K'), 64 bytes, base64, 0600, reads back, ciphertexts under the stored key; valid -> untouched, ciphertexts under K; valid with trailing white space: accepted or refused, untouched either way; unusable / parent missing -> non-zero exit, untouched, no output line, no plaintext; no --encrypt and decrypt never touch the key path; decrypt succeeds exactly with a valid key). states = distinct (initial state, abstract state) pairs reached; plus 60 CLI generations + 2000 GenerateKey calls pairwise distinct (observation) and one strace run for write ordering",
+		Rule:        "explicit-state search with the real CLI: 21 initial states of the key path (absent; valid with mode 0600 / 0644; valid + LF / CRLF; a symbolic link to a valid key; empty; 32-, 63-, 65-, 66-, 96-, 128-byte keys; not base64; base64url alphabet; 64 raw bytes; directory; the null device; a symbolic link to the null device; parent missing; below a regular file) x EVERY sequence of 1..3 (thorough 1..4) operations over {redact in1 --encrypt, redact in2 --encrypt, redact without --encrypt, decrypt, redact --encrypt of an input with an over-long second line (fails after one good line), of a cut gzip input (fails mid-stream), of a missing input (fails before reading)} = 21 x 399 traces, each replayed from a fresh sandbox; after every transition the observed key path (type, bytes, mode), exit status and output file are compared with the reference model (absent -> valid(K'), 64 bytes, base64, 0600, reads back, ciphertexts under the stored key; a FAILING run from absent either leaves no key and no ciphertext line, or a well-formed key under which every line it wrote decrypts, and that key is what later runs use; valid -> untouched, ciphertexts under K; valid with trailing white space: accepted or refused, untouched either way; unusable / parent missing -> non-zero exit, untouched, no output line, no plaintext; no --encrypt and decrypt never touch the key path; decrypt succeeds exactly with a valid key). states = distinct (initial state, abstract state) pairs reached; plus 60 CLI generations + 2000 GenerateKey calls pairwise distinct (observation) and one strace run for write ordering",
 		Assumptions: []string{"'unreadable' key files cannot be produced when running as root", "distinctness of generated keys is an observation, not a decision", "a valid key followed by a newline may be accepted or refused; both outcomes must leave it untouched"},
 		Run:         c11Run, Post: c11Post,
 	})
